@@ -157,6 +157,12 @@ func Doubling(r *fw.Rand) string {
 			"a=[1,2]; i=0; while i < 60 { a[:] = a + a; i = i + 1 }; 1",
 			"a=[[1,2]]; i=0; while i < 60 { a[0][0:0] = a[0]; i = i + 1 }; 1",
 			"func g(v) { v[0:0] = v; v }; a=[1,2]; i=0; while i < 60 { a = g(a); i = i + 1 }; 1",
+			"a=[1,2]; i=0; while i < 60 { a[a.len():100000] = a; i = i + 1 }; 1",
+			"a=[0]*512; a[512:9999] = a; a[600:99999999] = a; a.len()",
+			"a=[1,2]; i=0; while i < 60 { a[100000:] = a; i = i + 1 }; 1",
+			"a=[1,2]; i=0; while i < 60 { a[(0-100000):0] = a; i = i + 1 }; 1",
+			"a=[1,2]; i=0; while i < 60 { a[a.len():a.len()] = a; i = i + 1 }; 1",
+			"a=[1,2]; i=0; while i < 60 { a[9223372036854775807:9223372036854775807] = a; i = i + 1 }; 1",
 		})
 	}
 	if r.P(1, 8) {
@@ -167,6 +173,17 @@ func Doubling(r *fw.Rand) string {
 			"x='abcdefgh'; i=0; while i < 60 { x = toStr({'a': x, 'b': x}); i = i + 1 }; 1",
 			"x='abcdefgh'; i=0; while i < 60 { x = toStr(x) + toStr(x); i = i + 1 }; 1",
 			"x=['abcdefgh']; i=0; while i < 60 { x = [toStr(x), toStr(x)]; i = i + 1 }; 1",
+		})
+	}
+	if r.P(1, 10) {
+		// expensive computed values read from scopes several calls below the one that owns them
+		z := r.Pick([]string{"&z = 2500d1", "&z = 400d1 + 400d1", "&z = [1..400].sum() + 300d1"})
+		return z + "; " + r.Pick([]string{
+			"func g() { z }; func f() { g() + g() }; while 1 { f() }",
+			"func f() { &y = z; y }; while 1 { f() }",
+			"func g() { z }; func f() { g() }; func e() { f() }; i = 0; while i < 100000 { e(); i = i + 1 }",
+			"&y = z; &x = y; func f() { x }; while 1 { f() }",
+			"func f() { `{z}{z}` }; func e() { f() }; while 1 { e() }",
 		})
 	}
 	switch r.Intn(12) {
